@@ -95,8 +95,17 @@ def is_zero_init(how):
     return False
 
 
+def _real_ctor(c):
+    n = c.node
+    if n.get('explicitlyDeleted') or n.get('isDeleted'):
+        return False
+    if n.get('explicitlyDefaulted') in ('default', True) or n.get('isDefaulted'):
+        return False            # = default: members are copied / value-initialised by the language rules
+    return True
+
+
 def user_ctors(rec):
-    cs = [c for c in rec.ctors if not c.node.get('isImplicit')]
+    cs = [c for c in rec.ctors if not c.node.get('isImplicit') and _real_ctor(c)]
     return cs
 
 
@@ -109,9 +118,12 @@ def aggregate_sites(idx, qn):
     good, bad = 0, []
 
     def is_t(n):
-        t = re.sub(r'^(const )?(class |struct )?', '', qt(n)).replace('constexpr ', '').strip()
-        t = re.sub(r'\[[^\]]*\]$', '', t).strip()
-        return t == qn or t.split('::')[-1] == short and (t == short or qn.endswith(t))
+        for raw in (qt(n), dqt(n)):
+            t = re.sub(r'^(const )?(class |struct )?', '', raw or '').replace('constexpr ', '').strip()
+            t = re.sub(r'\[[^\]]*\]$', '', t).strip()
+            if t and (t == qn or t.split('::')[-1] == short and (t == short or qn.endswith(t))):
+                return True
+        return False
     roots = []
     for f in idx.all_funcs():
         if f.body is not None:
